@@ -57,6 +57,11 @@ func c01Witnesses() []c01Witness {
 			Doc: wDoc(J{"/a": J{"post": wOp("postA", J{"requestBody": J{"content": J{"application/octet-stream": J{"schema": J{"type": "string", "format": "binary"}}, "application/xml": J{"schema": J{"type": "string"}}}}})}}, nil)},
 		{Name: "two-multipart-request-media-types", FW: "chi",
 			Doc: wDoc(J{"/a": J{"post": wOp("postA", J{"requestBody": J{"content": J{"multipart/form-data": J{"schema": objWith(J{"a": J{"type": "string"}})}, "multipart/related": J{"schema": J{"type": "string", "format": "binary"}}}}})}}, nil)},
+		// an enum whose constants get the type name in front (a value is spelled like another type), one value of which
+		// already begins with the enum's own name: the prefix is not dropped for it
+		{Name: "prefixed-enum-value-beginning-with-the-type-name",
+			Doc: wDoc(J{}, J{"schemas": J{"Error": J{"type": "string", "enum": []interface{}{"error_not_found", "other"}},
+				"ErrorNotFound": J{"type": "object", "properties": J{"a": J{"type": "string"}}}}})},
 		{Name: "two-members-referring-to-a-renamed-schema",
 			Doc: wDoc(J{}, J{"schemas": J{"Z": J{"type": "object", "x-go-name": "ZRenamed", "properties": J{"a": J{"type": "string"}}},
 				"H": J{"type": "object", "properties": J{"first": J{"$ref": "#/components/schemas/Z"}, "second": J{"$ref": "#/components/schemas/Z"}}}}})},
